@@ -80,8 +80,15 @@ func (r *deliveryRule) PredOK(key string) bool {
 	return strings.HasPrefix(key, "v:")
 }
 
+// inLoopNow: the publisher is currently inside the dispatch loop (in the loop function
+// itself or in something it called from there).
+func (r *deliveryRule) inLoopNow(st *State) bool {
+	lb := st.BlockOf(r.R.LoopFn)
+	return lb != nil && r.loops.body[r.header][lb]
+}
+
 func (r *deliveryRule) inLoop(fc *FrameCtx, blk *ssa.BasicBlock) bool {
-	if fc.fn != r.R.PublishFn {
+	if fc.fn != r.R.LoopFn {
 		return true // inlined callee / goroutine reached from the loop
 	}
 	return r.loops.body[r.header][blk]
@@ -251,7 +258,7 @@ func (r *deliveryRule) OnInstr(e *Engine, st *State, fc *FrameCtx, in ssa.Instru
 	if stv, ok := in.(*ssa.Store); ok {
 		if ia, ok := stv.Addr.(*ssa.IndexAddr); ok {
 			if al, ok := ia.X.(*ssa.Alloc); ok && al.Comment == "varargs" && r.R.RegT != nil {
-				if typeName(stv.Val.Type()) == r.R.RegName() && fc.fn == r.R.PublishFn && r.inLoop(fc, in.Block()) {
+				if typeName(stv.Val.Type()) == r.R.RegName() && r.inLoop(fc, in.Block()) {
 					if hc := e.CanonS(fc, stv.Val); r.hCanon == "" || hc == r.hCanon {
 						s.R = 'y'
 						s.A = 'y'
@@ -262,13 +269,13 @@ func (r *deliveryRule) OnInstr(e *Engine, st *State, fc *FrameCtx, in ssa.Instru
 		}
 	}
 	// registry write after the loop = retirement region
-	if mu, ok := in.(*ssa.MapUpdate); ok && !fc.InGoroutine() && st.RootBlock() != nil && !r.loops.body[r.header][st.RootBlock()] {
+	if mu, ok := in.(*ssa.MapUpdate); ok && !fc.InGoroutine() && !r.inLoopNow(st) {
 		if tn, fld, _, ok := fieldLoad(mu.Map); ok && r.R.ShardT != nil && tn == r.R.ShardT.Obj().Name() && fld == r.R.ShardMap {
 			s.M = 'y'
 			r.sawRegistryWriteAfterLoop = true
 		}
 	}
-	if g, ok := in.(*ssa.Go); ok && fc.fn == r.R.PublishFn {
+	if g, ok := in.(*ssa.Go); ok && !fc.InGoroutine() && r.inLoopNow(st) {
 		r.spawnSites[g.Pos()] = true
 		// the spawner's view: this registration has been handed to a goroutine
 		if s.D < 2 {
@@ -369,7 +376,7 @@ func (r *deliveryRule) OnBranch(e *Engine, st *State, fc *FrameCtx, in *ssa.If, 
 	}
 	// emptiness test of the retirement list after the loop: its outcome is fixed by
 	// whether this publish queued anything
-	if bo, ok := cond.(*ssa.BinOp); ok && !fc.InGoroutine() && st.RootBlock() != nil && !r.loops.body[r.header][st.RootBlock()] {
+	if bo, ok := cond.(*ssa.BinOp); ok && !fc.InGoroutine() && !r.inLoopNow(st) {
 		nonEmptyOnTrue, lst, ok := lenTest(bo)
 		if ok {
 			// inside a helper the list is a parameter: look at the caller's argument
@@ -390,6 +397,22 @@ func (r *deliveryRule) OnBranch(e *Engine, st *State, fc *FrameCtx, in *ssa.If, 
 				s.P = 'd'
 				st.Note(in.Pos(), "context is done")
 			} else if !sel.Blocking && len(sel.States) == 1 {
+				s.P = 'l'
+			}
+			return
+		}
+	}
+	// the same poll written as `ctx.Err() != nil` (non-blocking by construction)
+	if x, nonNilOnTrue, ok := nilTest(in.Cond); ok {
+		if call, isCall := stripConv(x).(*ssa.Call); isCall && call.Common().IsInvoke() && call.Common().Method.Name() == "Err" && isNamed(call.Common().Value.Type(), "context", "Context") {
+			r.pollSites[call.Pos()] = true
+			if cv := e.CanonS(fc, call.Common().Value); !r.isPublishCtx(cv) {
+				e.Report(st, in.Pos(), "PublishContext/context-gate/which-context", "the polled context (%s) is not the publish context", cv)
+			}
+			if taken == nonNilOnTrue {
+				s.P = 'd'
+				st.Note(in.Pos(), "context is done")
+			} else {
 				s.P = 'l'
 			}
 			return
@@ -486,7 +509,7 @@ func refersToHandlerType(r *deliveryRule, v ssa.Value) bool {
 }
 
 func (r *deliveryRule) OnEdge(e *Engine, st *State, fc *FrameCtx, from, to *ssa.BasicBlock) {
-	if fc.fn != r.R.PublishFn || fc.parent != nil {
+	if fc.fn != r.R.LoopFn || fc.InGoroutine() {
 		return
 	}
 	body := r.loops.body[r.header]
@@ -559,7 +582,7 @@ func runDelivery(c *Ctx, p *Prog, R *BusRoles, ruleOf func(construct string) str
 		c.Unresolved("DELIVERY", "UNRESOLVED-ANCHOR/PublishContext-signature", "PublishContext no longer has the (bus, ctx, event) signature")
 		return
 	}
-	r.loops = loopsOf(R.PublishFn)
+	r.loops = loopsOf(R.LoopFn)
 	r.header = dispatchLoopHeader(R)
 	if r.header == nil {
 		c.Unresolved("DELIVERY", "UNRESOLVED-ANCHOR/dispatch-loop", "no loop in PublishContext contains a dispatch (call of the dispatch function or go statement)")
